@@ -48,6 +48,20 @@ lists of ints.  Nothing in the oracle imports or introspects the library.
              (check_raw / raw_to_value / from_list of the MASK and TMASK patterns and a few numbers, value_to_raw of
              the literals and numbers).  Every library class, the signed ones declared here, a few declared by the
              program.
+(h) family   a generated family of the program's own declarations (harness.ref_memory.family(seed), ~190 values in 16 banks):
+             base classes NumericValue / FixedScaleNumericValue (signed too) / TemperatureValue / StringValue / BinaryValue /
+             VersionNumberValue / energy.ScaledNumericValue; derived from the abstract base, from a shipped concrete value
+             (oem.CRI, oem.InputPowerNominal, ...) or from another value of the family with another width / signedness / limits
+             / MASK-TMASK support / scale; 1..12 locations ascending, descending, with gaps, scattered, up to 0xFE; each access
+             type, none, mixed; default / reset given; MemoryRange / tuple / list / single location; banks with / without lock
+             and latch byte.  The reference fixes what each means (an attribute the class body does not set is the parent's;
+             flag patterns of the value's OWN width and sign; bytes from the locations in declared order): layout read back,
+             decode of all byte strings (1 byte) / the boundary set, inverse for plain numbers and strings.
+(i) first use the same family in FRESH interpreters with the order of first use arranged: every parent decoded before the
+             derived class is declared; everything declared and the derived classes decoded before what they derive from;
+             each declaration in its own order; optionally after the abstract base classes themselves interpreted loose bytes
+             (NumericValue.check_raw(b"\\x12\\x34") ...).  Every decode of every phase - shipped parents included - must be
+             the reference's.
 (b) inverse  raw_to_value(value_to_raw(x)) == x for plain numbers (table kind "uint"/"cct")
              over all in-range numbers (<= 2 bytes) or a sample, and for strings of every
              length 0..len.
@@ -81,7 +95,10 @@ RULE = ("(class, raw) pairs: complete enumeration of all byte strings for every 
         "non-trivial as for decode; declare: (bank flags, sequence of declarations with per-location access types), "
         "non-trivial = some declaration has to be refused or mixes access types; caller's edits: (value class, argument of "
         "value_to_raw - 'MASK' / 'TMASK' / a number / a string - or byte string handed in as bytearray / list image) x the "
-        "in-place edits += / item assignment / clear / fill / reverse, non-trivial = a MASK / TMASK literal or a buffer handed in")
+        "in-place edits += / item assignment / clear / fill / reverse, non-trivial = a MASK / TMASK literal or a buffer handed in; "
+        "declared by a program: (declaration of the generated family of the run's seed, byte string - all 256 for one-byte "
+        "values, boundary set + a few pseudo-random ones for wider) + layout read back + inverse arguments; in fresh "
+        "interpreters: (order of first use, declaration, boundary byte string) for 5 (thorough: 6) orders")
 ASSUMPTIONS = [
     "memory map and decoding rules are my hand transcription of IEC 62386-102 9.10.6/9.10.7 and DiiA "
     "251/252/253 (harness/ref_memory.py); the texts are not in the sandbox - rows marked 'pinned' or with "
@@ -121,6 +138,17 @@ ASSUMPTIONS = [
     "the bytes only; the unchanged library returns immutable bytes everywhere and keeps no reference to its arguments",
     "signed MASK/TMASK patterns are exercised on values declared by the check itself (the library declares "
     "no signed value), using only the public declaration mechanism",
+    "generated family (harness/ref_memory.py family()): a value class derived from another value class - abstract base, shipped "
+    "value, the program's own - has the parent's mask_supported / tmask_supported / signed / min_value / max_value / "
+    "scaling_factor unless its class body sets them (None removes a limit), and its MASK / TMASK patterns are those of its own "
+    "number of locations and signedness; limits of a FixedScaleNumericValue / TemperatureValue apply to the stored number (as "
+    "for the shipped ControlGearPowerFactor / ControlGearTemperature); only combinations the documentation settles are generated "
+    "(no signed temperature / version / scaled value, one-byte booleans, one- or two-byte versions, no limits on strings / "
+    "booleans / versions); the unchanged library accepts every declaration and decodes every byte string as the reference says",
+    "the abstract value classes may be used on loose bytes (NumericValue.check_raw(b'..'), TemperatureValue.raw_to_value, ...): "
+    "a number without limits or flags, big-endian unsigned; temperature minus 60; text up to the first NUL; 0/1 booleans; x.y "
+    "versions; scale byte + number - the unchanged library does; what any class decodes never depends on which class was "
+    "used first",
 ]
 
 _FLAGNAMES = {"Invalid": RM.INVALID, "MASK": RM.MASK, "TMASK": RM.TMASK}
@@ -277,7 +305,16 @@ FORMS = ("list", "tuple", "bytes", "bytearray", "list-none-elsewhere", "list-end
 _MUTABLE_FORMS = ("list", "bytearray", "list-none-elsewhere", "list-ends-at-value", "list-300", "bytearray-256")
 
 
-def _spell(form, img, cls):
+def _addrs(cls, row=None):
+    """Where the value's bytes go in a bank image, in value order: the row's own list of locations (values declared by
+    the program: the reference says where the bytes are), else the library's declaration (shipped values, whose location
+    range section (c) compares with the table)."""
+    if row is not None and row.get("locs"):
+        return list(row["locs"])
+    return [l.address for l in cls.locations]
+
+
+def _spell(form, img, cls, row=None):
     """`img`: list of 255 ints.  The same bank contents as another kind of sequence."""
     if form == "list":
         return img
@@ -291,7 +328,7 @@ def _spell(form, img, cls):
         return bytearray(img) + b"\x5a"
     if form == "list-300":
         return list(img) + [0xA5] * 45
-    addrs = [l.address for l in cls.locations]
+    addrs = _addrs(cls, row)
     end = max(addrs) + 1
     if form == "list-ends-at-value":
         return img[:end]
@@ -375,10 +412,10 @@ def _check_decode(cls, row, raw, forms=FORMS):
     out = []
     ref = RM.decode_tagged(row, raw)
     img = [0] * 255
-    for loc, b in zip(cls.locations, raw):
-        img[loc.address] = b
+    for a, b in zip(_addrs(cls, row), raw):
+        img[a] = b
     for form in forms:
-        given = _spell(form, img, cls)
+        given = _spell(form, img, cls, row)
         before = given[:] if form in _MUTABLE_FORMS else given
         try:
             got = _tag(cls.from_list(given))
@@ -619,8 +656,8 @@ def _check_rtstr(cls, row, s):
         for fill in (0xFF, 0x5A):
             stored = bytes(raw) + bytes([fill] * (w - len(raw)))
             img = [0] * 255
-            for loc, b in zip(cls.locations, stored):
-                img[loc.address] = b
+            for a, b in zip(_addrs(cls, row), stored):
+                img[a] = b
             back = cls.from_list(img)
             if type(back) is not str or back != s:
                 out.append(("C11:roundtrip:" + name, "%s: %r written as [%s] over a field of %#x reads back %r"
@@ -1545,9 +1582,363 @@ def _alias_target(case):
     return cls, row, case["key"]
 
 
+# ------------------------- (h) a generated family of the program's own declarations, (i) order of first use ----
+# harness.ref_memory.family(seed): ~190 declarations over the documented declaration features - base class (NumericValue,
+# FixedScaleNumericValue incl. signed, TemperatureValue, StringValue, BinaryValue, VersionNumberValue, ScaledNumericValue),
+# derivation (from the abstract base, from a shipped concrete value such as oem.CRI / oem.InputPowerNominal, from another
+# value of the family - with another width, signedness, limits, flag support), 1..12 locations ascending / descending / with
+# gaps / scattered up to 0xFE, every access type / none / mixed, banks with and without lock and latch byte.  What a
+# declaration means is the reference's family_row(): an attribute the class body does not set is the parent's; the MASK /
+# TMASK patterns are those of the value's own width and signedness; the bytes come from the locations in declared order.
+_FAM = {}
+FAMILY_MODES = ("as-declared", "parent-first", "child-first", "abstract-first+parent-first", "abstract-first+child-first",
+                "abstract-first+as-declared")
+
+
+def _fam_bases():
+    loc = _lib()["location"]
+    out = {}
+    for name in RM.ABSTRACT_BASES:
+        try:
+            if name == "ScaledNumericValue":
+                from dali.memory import energy
+                out[name] = energy.ScaledNumericValue
+            else:
+                out[name] = getattr(loc, name)
+        except Exception:  # noqa: reported as a declaration that cannot be made
+            pass
+    return out
+
+
+def _fam_parent(decl, bases, classes):
+    kind, ref = decl["parent"]
+    if kind == "abstract":
+        return bases.get(ref), None
+    if kind == "stock":
+        return _lib()["classes"].get(ref), RM.BY_KEY[ref]
+    return classes.get(ref), RM.family(int(RM.family_of_key(ref)))["rows"][ref]
+
+
+def _touch(cls, row):
+    """What a program does when it first uses a class: decode one plain byte string."""
+    if cls is None or row is None:
+        return
+    try:
+        raw = bytes([0x00] * (row["width"] - 1) + [0x01])
+        img = [0] * 255
+        for a, b in zip(_addrs(cls, row), raw):
+            img[a] = b
+        cls.from_list(img)
+        cls.check_raw(raw)
+    except Exception:  # noqa: judged where the class is decoded, not here
+        pass
+
+
+def _family_classes(seed):
+    """Declare the family of `seed` in this process (once), each declaration in its own order of first use.
+    -> {"fam", "classes": {key: cls}, "banks": {bankobj: MemoryBank}, "errors": {key: text}}"""
+    seed = int(seed)
+    if seed in _FAM:
+        return _FAM[seed]
+    loc = _lib()["location"]
+    fam = RM.family(seed)
+    bases = _fam_bases()
+    banks, classes, errors = {}, {}, {}
+    for bk, b in fam["banks"].items():
+        try:
+            banks[bk] = RM.declare_bank(b, loc)
+        except Exception as e:  # noqa
+            errors[bk] = "MemoryBank(%d, %#x, has_lock=%s, has_latch=%s) raised %r" % (b["bank"], b["last"], b["has_lock"], b["has_latch"], e)
+    for d in fam["decls"]:
+        key = "%s.%s" % (d["bankobj"], d["name"])
+        parent, prow = _fam_parent(d, bases, classes)
+        if d["bankobj"] not in banks or parent is None:
+            errors[key] = errors.get(d["bankobj"]) or "the parent %s does not exist" % d["parent"][1]
+            continue
+        try:
+            if d["order"] == "parent-first":
+                _touch(parent, prow)
+            classes[key] = RM.declare_value(d, banks[d["bankobj"]], parent, loc)
+        except Exception as e:  # noqa: a legal declaration must be accepted
+            errors[key] = "class %s(%s) with locations %s raised %r" % (
+                d["name"], d["parent"][1], ", ".join("%#04x %s" % lt for lt in zip(d["locs"], d["types"])), e)
+            continue
+        if d["order"] == "child-first" or prow is None:
+            _touch(classes[key], fam["rows"][key])
+    _FAM[seed] = dict(fam=fam, classes=classes, banks=banks, errors=errors)
+    return _FAM[seed]
+
+
+def _fam_how(fam, key):
+    d = next(x for x in fam["decls"] if "%s.%s" % (x["bankobj"], x["name"]) == key)
+    r = fam["rows"][key]
+    b = fam["banks"][d["bankobj"]]
+    sets = ", ".join("%s=%r" % kv for kv in sorted(d["attrs"].items())) or "nothing else"
+    return ("value %s declared by the program: class %s(%s) in a bank with has_lock=%s has_latch=%s, locations %s (given as %s), "
+            "class body sets %s [meaning: %s%s, %d byte(s), MASK %s, TMASK %s, min %r, max %r%s]" % (
+                key, d["name"], d["parent"][1], b["has_lock"], b["has_latch"],
+                " ".join("%#04x:%s" % lt for lt in zip(d["locs"], d["types"])), d["form"], sets, r["kind"],
+                " signed" if r["signed"] else "", r["width"], r["mask"], r["tmask"], r["min"], r["max"],
+                ", x10^%d" % r["exp10"] if r["kind"] == "fixed" else ""))
+
+
+def _fam_sig(row, what):
+    return "C11:declared-by-program:%s%s:%s" % (row["kind"], "-signed" if row["signed"] else "", what)
+
+
+def _check_family_layout(seed, key):
+    F = _family_classes(seed)
+    fam = F["fam"]
+    row = fam["rows"][key]
+    how = _fam_how(fam, key)
+    if key in F["errors"]:
+        return [("C11:declared-by-program:declaration-refused", "%s: a legal declaration (free locations, lockable only where the "
+                 "bank has a lock byte) cannot be made: %s" % (how, F["errors"][key]))]
+    cls, bank = F["classes"][key], F["banks"][row["bankobj"]]
+    out = []
+    try:
+        addrs = [l.address for l in cls.locations]
+        types = [getattr(l.type_, "name", None) if l.type_ is not None else None for l in cls.locations]
+        if addrs != row["locs"]:
+            out.append((_fam_sig(row, "layout"), "%s: the class's locations are %s, declared (in value order) %s"
+                        % (how, [hex(a) for a in addrs], [hex(a) for a in row["locs"]])))
+        elif types != list(row["memtype"]):
+            out.append((_fam_sig(row, "layout"), "%s: the class's access types are %s, declared %s" % (how, types, list(row["memtype"]))))
+        if cls.bank is not bank or bank.address != row["bank"]:
+            out.append((_fam_sig(row, "layout"), "%s: the class hangs on bank %r" % (how, cls.bank)))
+        for a in row["locs"]:
+            ent = bank.locations[a]
+            if ent is None or ent.memory_value is not cls:
+                out.append((_fam_sig(row, "layout"), "%s: location %#04x of its bank belongs to %r" % (how, a, ent)))
+                break
+        if cls not in bank.values:
+            out.append((_fam_sig(row, "layout"), "%s: the class is not among its bank's values" % how))
+    except Exception as e:  # noqa
+        out.append((_fam_sig(row, "layout"), "%s: reading the declaration back raised %r" % (how, e)))
+    return out[:1]
+
+
+def _check_family(seed, key, raw, forms=FORMS):
+    F = _family_classes(seed)
+    fam = F["fam"]
+    row = fam["rows"][key]
+    if key in F["errors"]:
+        return _check_family_layout(seed, key)
+    out = []
+    for sig, msg in _check_decode(F["classes"][key], row, bytes(raw), forms):
+        what = sig.split(":")[1]
+        out.append((_fam_sig(row, what), "%s: %s" % (_fam_how(fam, key), msg)))
+    return out
+
+
+def _check_family_inverse(seed, key, x):
+    F = _family_classes(seed)
+    fam = F["fam"]
+    row = fam["rows"][key]
+    if key in F["errors"]:
+        return _check_family_layout(seed, key)
+    cls = F["classes"][key]
+    vs = _check_rtstr(cls, row, x) if isinstance(x, str) else _check_rtnum(cls, row, x)
+    return [(_fam_sig(row, "roundtrip"), "%s: %s" % (_fam_how(fam, key), msg)) for _, msg in vs]
+
+
+def family_raws(row, seed):
+    """Byte strings one family value is decoded from: all of them for one byte, else the boundary set (+ a few
+    pseudo-random ones)."""
+    w = row["width"]
+    if w == 1:
+        return [bytes([v]) for v in range(256)]
+    if row["kind"] == "scaled":
+        raws = _with_edges(image_choices(row), row)
+    else:
+        raws = boundary_raws(row)
+    if len(raws) > 500:
+        k = len(raws) // 400 + 1
+        raws = raws[seed % k::k]
+    import hashlib
+    extra = [hashlib.blake2b(b"%d:%s:%d" % (seed, row["key"].encode(), i), digest_size=w if w <= 64 else 64).digest()[:w]
+             for i in range(8)]
+    seen = set(raws)
+    return list(raws) + [e for e in extra if len(e) == w and e not in seen]
+
+
+def family_inverse_args(row, seed):
+    if row["kind"] == "uint":
+        lo, hi = RM.valid_range(row)
+        xs = {lo, hi, lo + 1, hi - 1, (lo + hi) // 2, 0, 1, -1, 255, 256, -128, 127, 128}
+        return sorted(x for x in xs if lo <= x <= hi)
+    if row["kind"] == "string":
+        w = row["width"]
+        return sorted({"", "A", "x" * w, "x" * (w - 1), "Hello world!"[:w], "\x01" * w, "\x7f" * max(0, w - 1),
+                       "".join(chr(0x21 + (i * 7 + seed) % 94) for i in range(w))})
+    return []
+
+
+# (i) the same family in a FRESH interpreter, with the order of first use arranged: parent classes decoded before the
+# derived class is declared ("parent-first"), derived classes declared and decoded before anything they derive from
+# ("child-first"), each declaration in its own order ("as-declared"); optionally after the program has interpreted loose
+# bytes with the abstract base classes themselves (NumericValue.check_raw(b'\x12\x34') ...).  Every decode of every phase is
+# judged: what a class decodes depends on its own declaration, never on which class was used first.
+ABSTRACT_USES = [
+    # base, method, raw bytes (hex), expected: ["none"] | ["flag", name] | ["value", type name, text]
+    ("NumericValue", "check_raw", "1234", ["none"]), ("NumericValue", "raw_to_value", "1234", ["value", "int", "4660"]),
+    ("NumericValue", "check_raw", "ff", ["none"]), ("NumericValue", "raw_to_value", "ff", ["value", "int", "255"]),
+    ("NumericValue", "check_raw", "00", ["none"]),
+    ("FixedScaleNumericValue", "check_raw", "0010", ["none"]), ("FixedScaleNumericValue", "raw_to_value", "0010", ["value", "int", "16"]),
+    ("TemperatureValue", "check_raw", "5a", ["none"]), ("TemperatureValue", "raw_to_value", "5a", ["value", "int", "30"]),
+    ("TemperatureValue", "check_raw", "ff", ["none"]),
+    ("StringValue", "check_raw", "61620063", ["none"]), ("StringValue", "raw_to_value", "61620063", ["value", "str", "ab"]),
+    ("BinaryValue", "check_raw", "01", ["none"]), ("BinaryValue", "raw_to_value", "01", ["value", "bool", "True"]),
+    ("BinaryValue", "check_raw", "02", ["flag", RM.INVALID]),
+    ("VersionNumberValue", "check_raw", "09", ["none"]), ("VersionNumberValue", "raw_to_value", "09", ["value", "str", "2.1"]),
+    ("VersionNumberValue", "raw_to_value", "0201", ["value", "str", "2.1"]),
+    ("ScaledNumericValue", "check_raw", "0700", ["flag", RM.INVALID]), ("ScaledNumericValue", "check_raw", "ff0005", ["none"]),
+    ("ScaledNumericValue", "raw_to_value", "ff0005", ["value", "Decimal", "0.5"]),
+]
+
+
+def family_probes(row):
+    """The byte strings every use of a class in a fresh-interpreter program decodes."""
+    if row["kind"] == "string":
+        sb = string_boundaries(row["width"])
+        return sb[::max(1, len(sb) // 40)]
+    return image_choices(row)
+
+
+def _use_enc(cls, row):
+    img0 = [0] * 255
+    out = []
+    for raw in family_probes(row):
+        img = list(img0)
+        for a, b in zip(_addrs(cls, row), raw):
+            img[a] = b
+        try:
+            out.append(_enc(_tag(cls.from_list(img))))
+        except Exception as e:  # noqa: reported by the parent
+            out.append(["raised", "%s: %s" % (type(e).__name__, e)])
+    return out
+
+
+def family_main(spec):
+    """Runs in a fresh interpreter (see __main__): spec = {"seed": n, "mode": one of FAMILY_MODES}.
+    -> {"abstract": [...], "uses": [[phase, key, [encoded decode results]]], "errors": {key: text}}"""
+    seed, mode = int(spec["seed"]), spec["mode"]
+    order = mode.split("+")[-1]
+    L = _lib()                          # imports the library's bank modules; decodes nothing
+    loc = L["location"]
+    fam = RM.family(seed)
+    bases = _fam_bases()
+    out = {"abstract": [], "uses": [], "errors": {}}
+    if mode.startswith("abstract-first"):
+        for base, meth, hx, _ in ABSTRACT_USES:
+            try:
+                v = getattr(bases[base], meth)(bytes.fromhex(hx))
+                out["abstract"].append(["none"] if v is None else _enc(_tag(v)))
+            except Exception as e:  # noqa
+                out["abstract"].append(["raised", "%s: %s" % (type(e).__name__, e)])
+    banks, classes = {}, {}
+    for bk, b in fam["banks"].items():
+        try:
+            banks[bk] = RM.declare_bank(b, loc)
+        except Exception as e:  # noqa
+            out["errors"][bk] = repr(e)
+    used_stock = []
+
+    def use(phase, key, cls, row):
+        if cls is not None:
+            out["uses"].append([phase, key, _use_enc(cls, row)])
+
+    for d in fam["decls"]:
+        key = "%s.%s" % (d["bankobj"], d["name"])
+        parent, prow = _fam_parent(d, bases, classes)
+        if d["bankobj"] not in banks or parent is None:
+            out["errors"][key] = "bank or parent missing"
+            continue
+        how = d["order"] if order == "as-declared" else order
+        if prow is not None and how == "parent-first":
+            use("parent-before-child-is-declared", d["parent"][1], parent, prow)
+        try:
+            classes[key] = RM.declare_value(d, banks[d["bankobj"]], parent, loc)
+        except Exception as e:  # noqa
+            out["errors"][key] = "%s: %s" % (type(e).__name__, e)
+            continue
+        if d["parent"][0] == "stock" and d["parent"][1] not in used_stock:
+            used_stock.append(d["parent"][1])
+        if order == "as-declared" or how == "parent-first":
+            use("first-use", key, classes[key], fam["rows"][key])
+            if prow is not None and how == "child-first":
+                use("parent-after-child", d["parent"][1], parent, prow)
+    if order == "child-first":
+        # everything is declared, nothing decoded yet: children before what they derive from
+        for d in reversed(fam["decls"]):
+            key = "%s.%s" % (d["bankobj"], d["name"])
+            use("first-use-children-first", key, classes.get(key), fam["rows"][key])
+        for ref in used_stock:
+            use("shipped-parent-last", ref, L["classes"].get(ref), RM.BY_KEY[ref])
+    for d in fam["decls"]:
+        key = "%s.%s" % (d["bankobj"], d["name"])
+        use("again", key, classes.get(key), fam["rows"][key])
+    for ref in used_stock:
+        use("again", ref, L["classes"].get(ref), RM.BY_KEY[ref])
+    return out
+
+
+def _check_family_program(spec):
+    """-> ([(sig, msg)], number of decodes compared, number of those where the reference says MASK / TMASK / Invalid)"""
+    import json
+    import os
+    import subprocess
+    import sys
+    from harness.runner import REPO, VERIF
+    if spec.get("mode") not in FAMILY_MODES:
+        raise ValueError("family program %r" % (spec,))
+    env = dict(os.environ, PYTHONHASHSEED="0", VERIF_REPO=REPO, PYTHONPATH=VERIF)
+    r = subprocess.run([sys.executable, "-B", os.path.abspath(__file__), "--family", json.dumps(spec)], env=env,
+                       capture_output=True, text=True, cwd=VERIF)
+    how = "a program that declares the generated family %d in a fresh interpreter, order of first use '%s'" % (spec["seed"], spec["mode"])
+    if r.returncode != 0:
+        tail = r.stderr.strip().splitlines()[-1:] or [""]
+        if "dali" not in r.stderr:
+            raise RuntimeError("family subprocess failed without the library being involved: " + r.stderr[-1500:])
+        return [("C11:declared-by-program:program-raised", "%s fails: %s" % (how, tail[0][:400]))], 0, 0
+    got = json.loads(r.stdout)
+    fam = RM.family(spec["seed"])
+    out, n, nflag = [], 0, 0
+    for key, err in sorted(got["errors"].items()):
+        out.append(("C11:declared-by-program:declaration-refused", "%s: %s cannot be declared: %s" % (how, key, err)))
+    for (base, meth, hx, want), g in zip(ABSTRACT_USES, got["abstract"]):
+        n += 1
+        if g != want:
+            out.append(("C11:abstract-base-on-loose-bytes:" + base, "%s: %s.%s(bytes.fromhex(%r)) gave %r, the documented "
+                        "encoding says %r" % (how, base, meth, hx, g[1:] or g, want[1:] or want)))
+    for phase, key, results in got["uses"]:
+        row = fam["rows"].get(key) or RM.BY_KEY[key]
+        for raw, b in zip(family_probes(row), results):
+            n += 1
+            ref = RM.decode_tagged(row, raw)
+            nflag += ref[0] == "flag"
+            if b[0] == "raised" or not _accept(_dec(b), ref, row, raw):
+                who = _fam_how(fam, key) if key in fam["rows"] else "shipped value %s (parent of a value declared by the program)" % key
+                out.append(("C11:shipped-value-next-to-program-declarations" if key in RM.BY_KEY else _fam_sig(row, "in-fresh-interpreter"),
+                            "%s, phase '%s': %s decodes [%s] to %r, reference says %r" % (how, phase, who, _hex(raw), b[-1], ref[1])))
+                break
+    seen = {}
+    for sig, msg in out:
+        seen.setdefault(sig, msg)
+    return list(seen.items()), n, nflag
+
+
 # ------------------------------------------------------------------ run_case ----
 def run_case(case):
     op = case["op"]
+    if op == "family":
+        if "x" in case:
+            return _check_family_inverse(case["seed"], case["key"], case["x"])
+        if "raw" in case:
+            return _check_family(case["seed"], case["key"], bytes(case["raw"]))
+        return _check_family_layout(case["seed"], case["key"])
+    if op == "family-program":
+        return _check_family_program(case["spec"])[0]
     if op == "decode":
         cls, row = _resolve(case["key"])
         if row is None:
@@ -1896,6 +2287,54 @@ def _shard(arg):
                classify=_declrules_labels)
         res.sample({"op": "declrules", "has_lock": False, "has_latch": True,
                     "decls": [{"locs": [[0x10, "NVM_RW"], [0x11, "NVM_RW_L"]]}]}, cls="declrules")
+    elif kind == "family":        # (h) the generated family of the program's own declarations, in this process
+        _, seed, lo, hi = arg
+        F = _family_classes(seed)
+        fam = F["fam"]
+        rot = seed + lo
+        for d in fam["decls"][lo:hi]:
+            key = "%s.%s" % (d["bankobj"], d["name"])
+            row = fam["rows"][key]
+            for x in RM.family_features(fam, d):
+                res.hist["declared:" + x] += 1
+            case = {"op": "family", "seed": seed, "key": key}
+            res.count()
+            res.nontrivial()
+            vs = _check_family_layout(seed, key)
+            for sig, msg in vs:
+                res.violation(sig, case, msg)
+            if key in F["errors"]:
+                continue
+            for raw in family_raws(row, seed):
+                res.count()
+                ref = RM.decode_tagged(row, raw)
+                if _nontrivial(row, raw, ref):
+                    res.nontrivial()
+                res.hist[_refclass(ref)] += 1
+                rot += 1
+                forms = FORMS if ref[0] == "flag" and ref[1] != RM.INVALID else (FORMS[rot % len(FORMS)],)
+                for sig, msg in _check_family(seed, key, raw, forms):
+                    res.violation(sig, dict(case, raw=list(raw)), msg)
+            for x in family_inverse_args(row, seed):
+                res.count()
+                res.nontrivial()
+                for sig, msg in _check_family_inverse(seed, key, x):
+                    res.violation(sig, dict(case, x=x), msg)
+        res.label("declared-by-program:family")
+        if lo == 0:
+            d = fam["decls"][0]
+            res.sample({"op": "family", "seed": seed, "key": "%s.%s" % (d["bankobj"], d["name"]), "raw": [0xFF] * len(d["locs"])},
+                       cls="family")
+    elif kind == "family-program":    # (i) the family in a fresh interpreter, order of first use arranged
+        _, spec = arg
+        case = {"op": "family-program", "spec": spec}
+        vs, n, nflag = _check_family_program(spec)
+        res.count(n)
+        res.nontrivial(n=nflag)
+        res.label("declared-by-program:fresh-interpreter:" + spec["mode"], n)
+        for sig, msg in vs:
+            res.violation(sig, case, msg)
+        res.sample(case, cls="family-program")
     elif kind == "alias":         # (g) results / buffers edited by the caller afterwards
         _, targets = arg
         for t in targets:
@@ -1969,6 +2408,11 @@ def run(ctx):
     targets = list(keys) + alias_user_specs()
     for i in range(0, len(targets), 30):
         light.append(("alias", targets[i:i + 30]))
+    nfam = len(RM.family(seed)["decls"])
+    for lo in range(0, nfam, 24):
+        heavy.append(("family", seed, lo, lo + 24))
+    modes = FAMILY_MODES if not q else FAMILY_MODES[:3] + (FAMILY_MODES[3 + seed % 3], FAMILY_MODES[3 + (seed + 1) % 3])
+    hist += [("family-program", {"seed": seed, "mode": m}) for m in modes]
     ctx.pmap(_shard, hist + heavy + light)
     r = ctx.result
     r.exhaustive = False
@@ -1982,7 +2426,9 @@ def run(ctx):
     r.extra["stride_3_byte"] = stride3
     r.extra["hypothesis_examples_per_wide_value"] = n_hyp
     r.extra["synthetic_signed_values"] = sorted(S["rows"])
-    r.extra["declaration_import_histories"] = len(hist)
+    r.extra["declaration_import_histories"] = len([h for h in hist if h[0] == "history"])
+    r.extra["declared_by_program"] = {"family_seed": seed, "values": nfam, "fresh_interpreter_orders": list(modes),
+                                      "features_required_in_every_family": list(RM.FAMILY_FEATURES)}
     r.extra["bank_image_forms"] = list(FORMS)
     r.extra["raw_bytes_forms"] = ["bytes"] + list(RAW_FORMS)
 
@@ -1992,3 +2438,5 @@ if __name__ == "__main__":
     import sys
     if "--history" in sys.argv:
         print(json.dumps(history_main(json.loads(sys.argv[sys.argv.index("--history") + 1]))))
+    elif "--family" in sys.argv:
+        print(json.dumps(family_main(json.loads(sys.argv[sys.argv.index("--family") + 1]))))
